@@ -35,6 +35,9 @@ func init() {
 		"(*strings.Builder).WriteString": extBuilderWrite,
 		"(*strings.Builder).String":      extBuilderString,
 		"(*archive/zip.File).Open":    extNonNilOnSuccess,
+		"image/png.Decode":            extNonNilOnSuccess,
+		"image/jpeg.Decode":           extNonNilOnSuccess,
+		"image/gif.Decode":            extNonNilOnSuccess,
 		"os.MkdirAll":                 extIOErr,
 		"os.Create":                   extOpenResource,
 		"archive/zip.NewWriter":       extZipNewWriter,
